@@ -29,13 +29,23 @@ def units(tier):
             if i > 0 and (not q or rot % 4 == 0):
                 # garbage = a bare keyword that needs more text to be a statement; unit name symbolic
                 us.append(dict(h="bad_stmt", prog=p, line=i, two=False, kw=rot % len(BARE), n=0, std=std, ic=True, symname=bool(rot % 8 == 0), cost=3))
+    # garbage = a well-formed statement with one stray parenthesis at its end
+    for p in PG.base_programs()[::(4 if q else 1)]:
+        src = G.program_text(p, {})
+        nlines = len([l for l in src.split("\n") if len(l) > 0])
+        for i in range(1, nlines):
+            rot += 1
+            us.append(dict(h="bad_stmt", prog=p, line=i, two=False, stray=rot % len(STRAY), n=0, std="f2008" if (G.is_f08(p) or rot % 2) else "f2003", ic=True, cost=2))
     return us
+
+
+STRAY = ["call s9", "q9 = r9 + 1", "print *, q9", "stop", "return", "continue", "cycle", "exit", "goto 10", "q9%r9 = 1", "nullify(q9)", "deallocate(q9)"]
 
 
 def meta(tier):
     q = tier == "quick"
     return dict(bounds=dict(programs=len(PG.programs("quick" if q else "thorough")), statement="every statement (line) of every program",
-                            garbage_len="1 (quick) / 1-2", garbage_alphabet=GARBAGE, layouts="garbage on one physical line or continued over two"),
+                            garbage_len="1 (quick) / 1-2", garbage_alphabet=GARBAGE, stray="or one of %d well-formed statements followed by a stray ( or )" % len(STRAY), layouts="garbage on one physical line or continued over two"),
                 assumptions=["free form; garbage characters cannot start any statement and are not comment/directive introducers"],
                 budget_s=300 if q else 1200, unit_budget_s=60 if q else 300, witness_every=5)
 
@@ -48,7 +58,9 @@ def bad_stmt(ctx):
         vals = G.make_holes(ctx, {"n8": 2})
     src = G.program_text(p["prog"], vals)
     lines = [l for l in src.split("\n") if len(l) > 0]
-    if p.get("kw") is not None:
+    if p.get("stray") is not None:
+        g = STRAY[p["stray"]] + ctx.chars("g", 1, ")(")
+    elif p.get("kw") is not None:
         g = BARE[p["kw"]]
     else:
         g = ctx.chars("g", p["n"], GARBAGE)
